@@ -40,8 +40,18 @@ def T(x):
     return tuple(T(y) if isinstance(y, (list, tuple)) else y for y in x)
 
 
-def to_obj(tree, Lang):
-    """Build the formula object bottom-up with the constructors of language module Lang."""
+def to_obj(tree, Lang, share=None):
+    """Build the formula object bottom-up with the constructors of language module Lang.  With a dict `share`, equal
+    subtrees become ONE object used as an operand several times (a DAG, as a caller who names a subformula builds it)."""
+    if share is not None:
+        key = T(tree)
+        if key not in share:
+            share[key] = _to_obj(tree, Lang, share)
+        return share[key]
+    return _to_obj(tree, Lang, None)
+
+
+def _to_obj(tree, Lang, share):
     t = tree[0]
     if t == 'ap':
         return Lang.AtomicProposition(tree[1])
@@ -53,7 +63,7 @@ def to_obj(tree, Lang):
     if name is None:
         raise ValueError('unknown tag %r' % (t,))
     cls = getattr(Lang, name)       # AttributeError if the language has no such symbol
-    return cls(*[to_obj(x, Lang) for x in tree[1:]])
+    return cls(*[to_obj(x, Lang, share) for x in tree[1:]])
 
 
 def to_tree(obj):
@@ -136,6 +146,29 @@ NAMINGS = {
 }
 
 
+def as_container(xs, rng, pairs=False):
+    """Present the list xs as one of the collection types a caller may legitimately pass (list, tuple, set, frozenset,
+    dict keys view, one-shot iterator / generator); with pairs=True the elements of a list/tuple may themselves be 2-element lists."""
+    if rng is None:
+        return xs
+    k = rng.randrange(8)
+    if k == 6:
+        return iter(list(xs))            # a one-shot iterator (the constructors and get_subgraph consume their argument once)
+    if k == 7:
+        return (x for x in list(xs))
+    if k == 0:
+        return list(xs)
+    if k == 1:
+        return tuple(xs)
+    if k == 2:
+        return set(xs)
+    if k == 3:
+        return frozenset(xs)
+    if k == 4:
+        return dict.fromkeys(xs).keys()
+    return tuple(list(x) for x in xs) if pairs else tuple(xs)
+
+
 def mk_kripke(K, naming='int', order=None, rng=None, S0=None, relabel=False):
     """Present abstract K = {n,R,L} to the real constructor.  Returns (kripke, name_of, index_of)."""
     name = NAMINGS[naming] if isinstance(naming, str) else naming
@@ -156,7 +189,7 @@ def mk_kripke(K, naming='int', order=None, rng=None, S0=None, relabel=False):
             Ld[name(j)] = set(['p', 'q'])
         k.replace_labelling_function(Ld)
     else:
-        k = Kripke(S=S, S0=[name(i) for i in (S0 or [])], R=R, L=dict(L))
+        k = Kripke(S=as_container(S, rng), S0=as_container([name(i) for i in (S0 or [])], rng), R=as_container(R, rng, pairs=True), L=dict(L))
     return k, name, {name(i): i for i in range(n)}
 
 
